@@ -253,6 +253,10 @@ class BzrBranch(Branch, _RelockDebugMixin):
     @only_raises(errors.LockNotHeld, errors.LockBroken)
     def unlock(self):
         """Release any locks held by this branch."""
+        if not self.control_files.is_locked():
+            # Not locked by us: refuse (LockNotHeld) without touching the
+            # repository, whose lock was not taken through this branch.
+            return self.control_files.unlock()
         if self.control_files._lock_count == 1 and self.conf_store is not None:
             self.conf_store.save_changes()
         try:
